@@ -2,10 +2,14 @@
    proof round 4).  All of them are about the graph and the version maps C14's validator
    computes (Model.SsaCheck.compute_infos), none about a family of runs:
      targets_versioned c        every local a statement assigns carries a version;
-     update_bases_fresh c       the array read by the first element-wise update of a
-                                never-assigned array (SsaCheck.update_base: the one read
-                                that SsaCheck.read_ok accepts without a running version) is
-                                assigned by no statement;
+     update_bases_fresh infos c the one read that SsaCheck.read_ok accepts WITHOUT a running version (through its
+                                argument fresh_ok: the base of an element-wise update, read at a statement where the
+                                validator's map holds no version of the variable - the first update of a
+                                never-assigned array) is of a name that no statement assigns.  An update whose base
+                                IS the running version (the second update of the same array: `u[0] = a; u[1] = 1;`,
+                                base u.1 assigned by the first) is an ordinary read of a current cell and is not
+                                restricted.  Evaluated on the validator's entry map of every block pushed through
+                                the body, as body_run does;
      no_future_version infos c  the version that is current at the EXIT of block i is never
                                 one that a block with a larger index assigns (in a graph
                                 renamed along the dominator tree the current version is
@@ -20,11 +24,21 @@ Import ListNotations.
 Definition targets_versioned (c : cfg) : bool :=
   forallb (fun x => match vn_version x with Some _ => true | None => false end) (local_targets_m c).
 
-Definition update_bases_fresh (c : cfg) : bool :=
-  forallb (fun s => match update_base s with
-                    | Some w => negb (existsb (vname_eqb w) (local_targets_m c))
-                    | None => true
-                    end) (all_stmts (c_blocks c)).
+Fixpoint ubf_body (c : cfg) (m : vmap) (ss : list stmt) : bool :=
+  match ss with
+  | [] => true
+  | s :: tl =>
+    match update_base s with
+    | Some w => match vget m (key_of w) with
+                | Some _ => true
+                | None => negb (existsb (vname_eqb w) (local_targets_m c))
+                end
+    | None => true
+    end && ubf_body c (track m s) tl
+  end.
+
+Definition update_bases_fresh (infos : list binfo) (c : cfg) : bool :=
+  forallb (fun ib => ubf_body c (bi_in (fst ib)) (snd (leading_phis (b_stmts (snd ib))))) (combine infos (c_blocks c)).
 
 Definition block_targets_m (c : cfg) (b : block) : list vname :=
   flat_map (fun st => match st with
@@ -41,4 +55,4 @@ Definition no_future_version (infos : list binfo) (c : cfg) : bool :=
           (combine (seq 0 (length infos)) infos).
 
 Definition loops_ok (infos : list binfo) (c : cfg) : bool :=
-  single_assignment_b c && targets_versioned c && update_bases_fresh c && no_future_version infos c.
+  single_assignment_b c && targets_versioned c && update_bases_fresh infos c && no_future_version infos c.
